@@ -107,17 +107,20 @@ def other_requests(api, opts, work):
         txt = txt.replace(a, b)
     v2 = json.loads(txt)
     alt = copy.deepcopy(api)
+    seen_vars = [0]
 
     def walk(x):
         if isinstance(x, dict):
             if isinstance(x.get('patterns'), list):
-                x['patterns'] = [p if p == '*' else 'regions/{region}/' + p for p in reversed(x['patterns'])]
+                seen_vars[0] += 1
+                x['patterns'] = [p if p == '*' else 'zones/{zone%d}/' % seen_vars[0] + p for p in reversed(x['patterns'])]
             for v in x.values():
                 walk(v)
         elif isinstance(x, list):
             for v in x:
                 walk(v)
     walk(alt)
+    walk(v2)          # the twin in the next version differs in its patterns as well (first-wins and last-wins memos both see a difference)
     out = []
     for k, a in (('v2', v2), ('alt', alt)):
         d = os.path.join(work, 'hist-' + k); os.makedirs(d, exist_ok=True)
@@ -165,12 +168,13 @@ def main(chk, args):
                 paths.append(os.path.join(wdir, f'req{k}.bin'))
                 with open(paths[-1], 'wb') as f:
                     f.write(rb)
-            warm = [(paths, seeds[0]), ([paths[-1], paths[-1]], seeds[-1])] if name.startswith('stress') or not quick else []
+            warm = ([([paths[0], paths[-1]], seeds[0]), ([paths[1], paths[-1]], seeds[1]), ([paths[-1], paths[-1]], seeds[-1])]
+                    if name.startswith('stress') or not quick else [])
             with ThreadPoolExecutor(8) as ex:
                 fw = [ex.submit(run_warm, w) for w in warm]
                 res = list(ex.map(run_one, jobs))
                 wres = [f.result() for f in fw]
-            hist = ['fresh'] * len(res) + ['after_other', 'after_same'][:len(wres)]
+            hist = ['fresh'] * len(res) + ['after_other', 'after_other', 'after_same'][:len(wres)]
             res += wres
             digests = []
             events = []
